@@ -897,7 +897,6 @@ func c16RetOK(rv ssa.Value, g *ssa.Function, args []ssa.Value, want string, dept
 	return false
 }
 
-
 // c16InitOneView: the pruning node's start-up initialisation of the running event filter reads the chain height, the retention
 // floor, the stored filter AND every header of the range it walks from ONE database snapshot. The floor is only meaningful
 // for the view it was read from: if the header walk reads the live database instead (seeded change C16-I releases the snapshot
